@@ -1,100 +1,136 @@
 import OrbitModel.Proofs.ReplStep
 /-!
-# Replicator: `Inv` is preserved by `fetchOk` and `load`; every reachable state satisfies `Inv`
+# Replicator: `Inv` is preserved by `fetched`, `finish` and `load`; every reachable state satisfies `Inv`
 -/
 namespace Orbit.Repl
 
 variable {net : Nat → Info} {c : Nat} {s : St}
 
-/-- `fetchOk`, own-log entry: worker removed, hash buffered (before the links are queued) -/
-def okPre (s : St) (i hh : Nat) : St :=
-  { s with workers := removeAt s.workers i, buffer := s.buffer ++ [hh] }
+/-- `fetched`, own-log entry: the worker is `finishing`, its hash buffered (before the links are
+queued) -/
+def okPre (s : St) (i ctx hh : Nat) : St :=
+  { s with workers := s.workers.set i ⟨ctx, hh, .finishing⟩, buffer := s.buffer ++ [hh] }
 
-theorem Inv.fetchOk (h : Inv net c s) (i : Nat) : Inv net c (step net s (.fetchOk i)) := by
+/-- `fetched`, entry of another log: the worker is `finishing`, nothing else changes -/
+def foreignPre (s : St) (i ctx hh : Nat) : St :=
+  { s with workers := s.workers.set i ⟨ctx, hh, .finishing⟩ }
+
+theorem Inv.fetched (h : Inv net c s) (i : Nat) : Inv net c (step net s (.fetched i)) := by
   cases hwi : s.workers[i]? with
   | none => simp only [step, hwi]; exact h
   | some w =>
     obtain ⟨ctx, hh, pc⟩ := w
     cases pc with
     | waitSlot => simp only [step, hwi]; exact h
+    | finishing => simp only [step, hwi]; exact h
     | fetching =>
       simp only [step, hwi]
       by_cases hc : s.cancelled.contains ctx = true
       · rw [if_pos hc]; exact h
       rw [if_neg hc]
-      obtain ⟨l1, l2, hw, _, hrm, _⟩ := split_at hwi
-      have hip : s.inProgress ≥ 1 := by
-        rw [h.inprog_eq, hw]; simp [List.countP_append, isFetch]; omega
-      have hsem : s.sem + 1 + (s.inProgress - 1) = c := by have := h.sem_eq; omega
+      obtain ⟨l1, l2, hw, _, _, hset⟩ := split_at hwi
+      -- a finishing worker of the new list other than this one was finishing before
+      have hother : ∀ w ∈ l1 ++ ⟨ctx, hh, .finishing⟩ :: l2, w.pc = .finishing → w.item ≠ hh →
+          w ∈ s.workers := by
+        intro w hm _ hne
+        rw [hw]
+        exact mem_swap hm (fun e => hne (by rw [e]))
       cases hf : (net hh).foreign with
       | true =>
         simp only [if_true]
-        show Inv net c (done { s with workers := removeAt s.workers i } hh)
-        rw [done_eq]
-        have hS : InvS net (donePre { s with workers := removeAt s.workers i } hh) :=
-          h.toInvS.complete hw hrm rfl rfl rfl rfl rfl (Or.inl ⟨hf, rfl⟩)
-        have htk := lookup_set_task (s := s)
-          (s' := donePre { s with workers := removeAt s.workers i } hh) (h := hh) (t := .fetched) rfl
-        refine Inv.finish 1 hS ?_ hsem
-        intro k hk hnf l hl
-        rw [htk] at hk
-        by_cases e : hh = k
-        · rw [← e, hf] at hnf; cases hnf
-        · simp only [e, if_false] at hk
-          rcases h.closure k hk hnf l hl with h' | h' | h'
-          · exact Or.inl h'
-          · refine Or.inr (Or.inl ?_)
-            rw [htk]
-            by_cases e' : hh = l
-            · simp [e']
-            · simp only [e', if_false]; exact h'
-          · exact Or.inr (Or.inr h')
+        show Inv net c (foreignPre s i ctx hh)
+        have hS : InvS net (foreignPre s i ctx hh) :=
+          h.toInvS.toFin hw (hset _) rfl rfl rfl rfl rfl (Or.inl ⟨hf, rfl⟩)
+        refine ⟨hS, ?_, h.sem_eq, h.buf_idle⟩
+        refine h.closure.transfer (s' := foreignPre s i ctx hh) ?_ (fun l hl => hl)
+        rintro k hnf (hk | ⟨w, hm, e, hp⟩)
+        · exact Or.inl hk
+        · have hm' : w ∈ s.workers.set i ⟨ctx, hh, .finishing⟩ := hm
+          rw [hset] at hm'
+          by_cases e' : w.item = hh
+          · rw [← e, e', hf] at hnf; cases hnf
+          · exact Or.inr ⟨w, hother w hm' hp e', e, hp⟩
       | false =>
         simp only [Bool.false_eq_true, if_false]
-        show Inv net c (done (List.foldl (enqueue ctx) (okPre s i hh) (net hh).links) hh)
-        obtain ⟨nw, hnd, hnew, hcov, heq⟩ := foldl_enqueue_spec ctx (net hh).links (okPre s i hh)
-        rw [heq, done_eq]
+        show Inv net c (List.foldl (enqueue ctx) (okPre s i ctx hh) (net hh).links)
+        obtain ⟨nw, hnd, hnew, hcov, heq⟩ := foldl_enqueue_spec ctx (net hh).links (okPre s i ctx hh)
+        rw [heq]
+        have hS1 : InvS net (okPre s i ctx hh) :=
+          h.toInvS.toFin hw (hset _) rfl rfl rfl rfl rfl (Or.inr ⟨hf, rfl⟩)
         have hnew' : ∀ k ∈ nw, task s k = none := fun k hk => (hnew k hk).2.1
-        have hX : InvS net (enqd s ctx nw) := h.toInvS.enqd ctx hnd hnew'
-        have hS : InvS net (donePre (enqd (okPre s i hh) ctx nw) hh) := by
-          refine hX.complete (l1 := l1) (l2 := l2 ++ spawn ctx nw) (ctx := ctx) (hh := hh)
-            ?_ ?_ rfl rfl rfl rfl rfl (Or.inr ⟨hf, rfl⟩)
-          · rw [enqd_workers, hw]; simp
-          · show removeAt s.workers i ++ spawn ctx nw = _
-            rw [hrm, List.append_assoc]
-        have htk : ∀ k, task (donePre (enqd (okPre s i hh) ctx nw) hh) k
-            = if hh = k then some .fetched else if k ∈ nw then some .added else task s k := by
-          intro k
-          rw [lookup_set_task (s := enqd (okPre s i hh) ctx nw) (h := hh) (t := .fetched) rfl, task_enqd]
-          rfl
-        have htr : ∀ l, task s l ≠ none → task (donePre (enqd (okPre s i hh) ctx nw) hh) l ≠ none := by
+        have hS : InvS net (enqd (okPre s i ctx hh) ctx nw) := hS1.enqd ctx hnd hnew'
+        have htk : ∀ k, task (enqd (okPre s i ctx hh) ctx nw) k
+            = if k ∈ nw then some .added else task s k := fun k => task_enqd _ ctx nw k
+        have htr : ∀ l, tracked s l → tracked (enqd (okPre s i ctx hh) ctx nw) l := by
+          refine tracked_of (s := s) (fun k hk => hk) ?_ (fun k hk => hk)
           intro l hl
-          rw [htk]
-          by_cases e : hh = l
-          · simp [e]
-          · by_cases e' : l ∈ nw
-            · simp [e, e']
-            · simp only [e, e', if_false]; exact hl
-        refine Inv.finish 1 hS ?_ hsem
-        intro k hk hnf l hl
-        rw [htk] at hk
-        by_cases e : hh = k
-        · subst e
-          rcases hcov l hl with h' | h' | h'
-          · exact Or.inl h'
-          · exact Or.inr (Or.inl (htr l h'))
-          · refine Or.inr (Or.inl ?_)
-            rw [htk]
-            by_cases e : hh = l
-            · simp [e]
-            · simp [e, h']
-        · by_cases e' : k ∈ nw
-          · simp [e, e'] at hk
-          · simp only [e, e', if_false] at hk
-            rcases h.closure k hk hnf l hl with h' | h' | h'
-            · exact Or.inl h'
-            · exact Or.inr (Or.inl (htr l h'))
-            · exact Or.inr (Or.inr h')
+          left; rw [htk]
+          by_cases e' : l ∈ nw
+          · simp [e']
+          · simp only [e', if_false]; exact hl
+        have hmine : (⟨ctx, hh, .finishing⟩ : Worker) ∈ (enqd (okPre s i ctx hh) ctx nw).workers := by
+          rw [enqd_workers]
+          refine List.mem_append.2 (Or.inl ?_)
+          show _ ∈ s.workers.set i ⟨ctx, hh, .finishing⟩
+          rw [hset]; exact List.mem_append.2 (Or.inr List.mem_cons_self)
+        refine ⟨hS, ?_, h.sem_eq, fun _ => isIdle_false_of_task (hS.w_task _ hmine) (by simp [tsOf])⟩
+        rintro k (hk | ⟨w, hm, e, hp⟩) hnf l hl
+        · rw [htk] at hk
+          by_cases e' : k ∈ nw
+          · simp [e'] at hk
+          · simp only [e', if_false] at hk
+            exact htr l (h.closure k (Or.inl hk) hnf l hl)
+        · rw [enqd_workers] at hm
+          rcases List.mem_append.1 hm with hm | hm
+          · have hm' : w ∈ s.workers.set i ⟨ctx, hh, .finishing⟩ := hm
+            rw [hset] at hm'
+            by_cases e' : w.item = hh
+            · -- the entry just fetched: its links have just been queued
+              rw [← e, e'] at hl
+              rcases hcov l hl with h' | h' | h'
+              · exact Or.inl h'
+              · exact htr l (Or.inr (Or.inl h'))
+              · refine Or.inr (Or.inl ?_)
+                rw [htk]; simp [h']
+            · exact htr l (h.closure k (Or.inr ⟨w, hother w hm' hp e', e, hp⟩) hnf l hl)
+          · obtain ⟨k', _, rfl⟩ := mem_spawn.1 hm
+            cases hp
+
+theorem Inv.finish (h : Inv net c s) (i : Nat) : Inv net c (step net s (.finish i)) := by
+  cases hwi : s.workers[i]? with
+  | none => simp only [step, hwi]; exact h
+  | some w =>
+    obtain ⟨ctx, hh, pc⟩ := w
+    cases pc with
+    | waitSlot => simp only [step, hwi]; exact h
+    | fetching => simp only [step, hwi]; exact h
+    | finishing =>
+      simp only [step, hwi]
+      obtain ⟨l1, l2, hw, _, hrm, _⟩ := split_at hwi
+      have hmine : (⟨ctx, hh, .finishing⟩ : Worker) ∈ s.workers :=
+        hw ▸ List.mem_append.2 (Or.inr List.mem_cons_self)
+      have hip : s.inProgress ≥ 1 := by
+        rw [h.inprog_eq, hw]; simp [List.countP_append, List.countP_cons]; omega
+      have hsem : s.sem + 1 + (s.inProgress - 1) = c := by have := h.sem_eq; omega
+      rw [done_eq]
+      have hS : InvS net (donePre { s with workers := removeAt s.workers i } hh) :=
+        h.toInvS.complete hw hrm rfl rfl rfl rfl rfl rfl
+      have htk := lookup_set_task (s := s)
+        (s' := donePre { s with workers := removeAt s.workers i } hh) (h := hh) (t := .fetched) rfl
+      refine Inv.flushed 1 hS ?_ hsem
+      apply h.closure.transfer
+      · rintro k _ (hk | ⟨w, hm, e, hp⟩)
+        · rw [htk] at hk
+          by_cases e : hh = k
+          · exact Or.inr ⟨_, hmine, e, rfl⟩
+          · simp only [e, if_false] at hk; exact Or.inl hk
+        · exact Or.inr ⟨w, mem_removeAt hw hrm hm, e, hp⟩
+      · refine tracked_of (s := s) (fun k hk => hk) ?_ (fun k hk => hk)
+        intro l hl
+        left; rw [htk]
+        by_cases e' : hh = l
+        · simp [e']
+        · simp only [e', if_false]; exact hl
 
 theorem Inv.load (h : Inv net c s) (ctx : Nat) (hs : List Nat) : Inv net c (step net s (.load ctx hs)) := by
   show Inv net c (List.foldl (enqueue ctx) { s with failed := [] } (s.failed ++ hs))
@@ -102,14 +138,21 @@ theorem Inv.load (h : Inv net c s) (ctx : Nat) (hs : List Nat) : Inv net c (step
   rw [heq]
   have hnew' : ∀ k ∈ nw, task s k = none := fun k hk => (hnew k hk).2.1
   have hS0 : InvS net { s with failed := [] } :=
-    h.toInvS.congr rfl rfl rfl rfl rfl (fun _ => Iff.rfl) id
+    h.toInvS.congr rfl rfl rfl rfl rfl rfl rfl
   refine ⟨hS0.enqd ctx hnd hnew', ?_, h.sem_eq, ?_⟩
   · intro k hk hnf l hl
-    rw [task_enqd] at hk
-    by_cases e : k ∈ nw
-    · simp [e] at hk
-    · simp only [e, if_false] at hk
-      have hold : ∀ l, task s l ≠ none → task (enqd { s with failed := [] } ctx nw) l ≠ none := by
+    have hk : got s k := by
+      rcases hk with hk | ⟨w, hm, e, hp⟩
+      · rw [task_enqd] at hk
+        by_cases e : k ∈ nw
+        · simp [e] at hk
+        · simp only [e, if_false] at hk; exact Or.inl hk
+      · rw [enqd_workers] at hm
+        rcases List.mem_append.1 hm with hm | hm
+        · exact Or.inr ⟨w, hm, e, hp⟩
+        · obtain ⟨k', _, rfl⟩ := mem_spawn.1 hm
+          cases hp
+    · have hold : ∀ l, task s l ≠ none → task (enqd { s with failed := [] } ctx nw) l ≠ none := by
         intro l hl
         rw [task_enqd]
         by_cases e' : l ∈ nw
@@ -136,7 +179,8 @@ theorem Inv.step (h : Inv net c s) (a : Act) : Inv net c (step net s a) := by
   | load ctx hs => exact h.load ctx hs
   | cancel ctx => exact h.cancel ctx
   | acquire i => exact h.acquire i
-  | fetchOk i => exact h.fetchOk i
+  | fetched i => exact h.fetched i
+  | finish i => exact h.finish i
   | fetchFail i => exact h.fetchFail i
   | deliver => exact h.deliver
 
@@ -147,16 +191,17 @@ theorem Inv.init (net : Nat → Info) (c : Nat) : Inv net c { sem := c } where
   w_task := by intro w hw; cases hw
   task_w := by intro h t ht; cases ht
   queue_eq := rfl
-  bp_fetched := by
-    intro h hh
-    rcases hh with hh | ⟨b, hb, _⟩
-    · cases hh
-    · cases hb
+  pend_fetched := by intro b hb; cases hb
+  buf_got := by intro h hh; cases hh
+  fin_buf := by intro w hw; cases hw
   buf_nodup := List.nodup_nil
   log_nodup := List.nodup_nil
   log_ok := by intro h hh; cases hh
   fetched_in := by intro h hh; cases hh
-  closure := by intro h hh; cases hh
+  closure := by
+    rintro h (hh | ⟨w, hw, _⟩)
+    · cases hh
+    · cases hw
   sem_eq := rfl
   buf_idle := by intro hb; exact absurd rfl hb
 
@@ -177,6 +222,7 @@ theorem InvS.mem_queue_iff (h : InvS net s) (k : Nat) : k ∈ s.queue ↔ task s
     cases pc
     · exact this
     · simp [isWait] at hp
+    · simp [isWait] at hp
   · intro hk
     obtain ⟨w, hm, rfl, hp⟩ := h.task_w k .added hk (by simp)
     refine List.mem_map.2 ⟨w, List.mem_filter.2 ⟨hm, ?_⟩, rfl⟩
@@ -184,10 +230,13 @@ theorem InvS.mem_queue_iff (h : InvS net s) (k : Nat) : k ∈ s.queue ↔ task s
     cases pc
     · rfl
     · simp [tsOf] at hp
+    · simp [tsOf] at hp
 
-/-- a task is `fetching` iff a worker bound to it is inside a fetch -/
+/-- a task is `fetching` iff a worker bound to it is inside a fetch, or between `processItems` and
+`processEntryDone` -/
 theorem InvS.fetching_iff (h : InvS net s) (k : Nat) :
-    task s k = some .fetching ↔ ∃ w ∈ s.workers, w.item = k ∧ w.pc = .fetching := by
+    task s k = some .fetching ↔
+      ∃ w ∈ s.workers, w.item = k ∧ (w.pc = .fetching ∨ w.pc = .finishing) := by
   constructor
   · intro hk
     obtain ⟨w, hm, rfl, hp⟩ := h.task_w k .fetching hk (by simp)
@@ -195,17 +244,19 @@ theorem InvS.fetching_iff (h : InvS net s) (k : Nat) :
     obtain ⟨_, _, pc⟩ := w
     cases pc
     · simp [tsOf] at hp
-    · rfl
-  · rintro ⟨w, hm, rfl, hp⟩
-    have := h.w_task w hm
-    rw [hp] at this; exact this
+    · exact Or.inl rfl
+    · exact Or.inr rfl
+  · rintro ⟨w, hm, rfl, hp | hp⟩ <;>
+    · have := h.w_task w hm
+      rw [hp] at this; exact this
 
 /-- **safety**: every reachable state of the replicator satisfies `Inv` -/
 theorem inv_reachable (net : Nat → Info) (c : Nat) (acts : List Act) :
     Inv net c (run net { sem := c } acts) := (Inv.init net c).run acts
 
 /-- the closure invariant in the form of the property statement: for every hash in the oplog, in
-the buffer, in a pending batch, or fetched and of this log, every link is tracked -/
+the buffer (its worker may still be `finishing`), in a pending batch, or fetched and of this log,
+every link is tracked -/
 theorem closure_reachable (net : Nat → Info) (c : Nat) (acts : List Act) (h : Nat) :
     let s := run net { sem := c } acts
     (h ∈ s.log ∨ inBP s h ∨ (task s h = some .fetched ∧ (net h).foreign = false)) →
@@ -213,8 +264,8 @@ theorem closure_reachable (net : Nat → Info) (c : Nat) (acts : List Act) (h : 
   intro s hh l hl
   have hi := inv_reachable net c acts
   rcases hh with hh | hh | hh
-  · exact hi.closure h (hi.log_ok h hh).1 (hi.log_ok h hh).2.2 l hl
-  · exact hi.closure h (hi.bp_fetched h hh).1 (hi.bp_fetched h hh).2 l hl
-  · exact hi.closure h hh.1 hh.2 l hl
+  · exact hi.closure h (Or.inl (hi.log_ok h hh).1) (hi.log_ok h hh).2.2 l hl
+  · exact hi.closure h (hi.bp_got h hh).1 (hi.bp_got h hh).2 l hl
+  · exact hi.closure h (Or.inl hh.1) hh.2 l hl
 
 end Orbit.Repl
